@@ -585,7 +585,7 @@ var ExpireBound int64 = 1000000000 // äº¤æ˜“è¿‡æœŸåˆ†ç•Œçº¿ï¼Œå°äºexpireBoundæ
 // IsExpire äº¤æ˜“æ˜¯å¦è¿‡æœŸ
 func (tx *Transaction) IsExpire(cfg *Chain33Config, height, blocktime int64) bool {
 	group, _ := tx.GetTxGroup()
-	if group == nil {
+	if group == nil || len(group.GetTxs()) < 2 {
 		return tx.isExpire(cfg, height, blocktime)
 	}
 	return group.IsExpire(cfg, height, blocktime)
